@@ -3,7 +3,7 @@
    that the hypotheses are satisfiable and that the model computes the hand-derived results of
    harness/src/fontgen/selftest.rs. *)
 From Coq Require Import List NArith ZArith Bool Arith Permutation.
-From RB Require Import Gen.MorxConsts Base.Result Model.Buffer Model.Font Model.Morx Model.MorxPipe Proofs.MorxP.
+From RB Require Import Gen.MorxConsts Gen.MorxFeatMap Base.Result Model.Buffer Model.Font Model.Morx Model.MorxFeat Model.MorxPipe Proofs.MorxP.
 Import ListNotations.
 
 (* ------------------------------------------------------------------ 1. rearrangement *)
@@ -86,18 +86,18 @@ Theorem C17_drive_total_generic : forall (E C : Type) (M : machine E C) (st : st
   (forall c e b ops c' b' ops' a, Inv b -> m_transition M c e b ops = Ok (c', b', ops', a) -> ok b' = true ->
      Inv b' /\ (pot b' ops' <= pot b ops)%nat) ->
   (forall b b2, Inv b -> rest b <> [] -> next_glyph b = Ok b2 -> ok b2 = true -> Inv b2 /\ (length (rest b2) < length (rest b))%nat) ->
-  forall fuel state c b ops amb, Inv b -> (pot b ops < fuel)%nat -> drive_loop M st ng fuel state c b ops amb <> None.
+  forall fuel state c b ops amb gate lr, Inv b -> (pot b ops < fuel)%nat -> drive_loop M st ng fuel state c b ops amb gate lr <> None.
 Proof. exact (@drive_loop_total). Qed.
 Print Assumptions C17_drive_total_generic.
 
 (* instances: rearrangement and contextual subtables, with the fuel `drive` uses *)
-Theorem C17_drive_total_rearrangement : forall st ng b ops state c amb, out_mode b = false ->
-  drive_loop rearr_machine st ng (drive_fuel (drive_start true b) ops) state c (drive_start true b) ops amb <> None.
+Theorem C17_drive_total_rearrangement : forall st ng b ops state c amb gate lr, out_mode b = false ->
+  drive_loop rearr_machine st ng (drive_fuel (drive_start true b) ops) state c (drive_start true b) ops amb gate lr <> None.
 Proof. exact rearr_drive_total. Qed.
 Print Assumptions C17_drive_total_rearrangement.
 
-Theorem C17_drive_total_contextual : forall subs st ng b ops state c amb, out_mode b = false ->
-  drive_loop (ctx_machine subs ng) st ng (drive_fuel (drive_start true b) ops) state c (drive_start true b) ops amb <> None.
+Theorem C17_drive_total_contextual : forall subs st ng b ops state c amb gate lr, out_mode b = false ->
+  drive_loop (ctx_machine subs ng) st ng (drive_fuel (drive_start true b) ops) state c (drive_start true b) ops amb gate lr <> None.
 Proof. exact ctx_drive_total. Qed.
 Print Assumptions C17_drive_total_contextual.
 
@@ -114,7 +114,7 @@ Print Assumptions C17_contextual_transition_shape.
 Theorem C17_reverse_paired : forall ng d s p p', run_subtable ng d s p = Ok p' ->
   exists b0 b1 ops amb,
     maybe_reverse (sub_reverse d s) (p_buf p) = Ok b0 /\
-    apply_subtable (ms_kind s) ng b0 (p_ops p) = Ok (b1, ops, amb) /\
+    apply_subtable (ms_kind s) ng None b0 (p_ops p) = Ok (b1, ops, amb) /\
     maybe_reverse (sub_reverse d s) b1 = Ok (p_buf p').
 Proof. exact run_subtable_paired. Qed.
 Print Assumptions C17_reverse_paired.
@@ -164,13 +164,13 @@ Local Close Scope N_scope.
 (* ligature and insertion subtables: the transition restores out_len (ligature) or pays `count` units
    of max_ops for `count` inserted glyphs (insertion), so the same potential argument applies — for
    every buffer, every state table and payload tables *)
-Theorem C17_drive_total_ligature : forall actions comps ligs st ng b ops state c amb,
-  drive_loop (lig_machine actions comps ligs) st ng (drive_fuel (drive_start false b) ops) state c (drive_start false b) ops amb <> None.
+Theorem C17_drive_total_ligature : forall actions comps ligs st ng b ops state c amb gate lr,
+  drive_loop (lig_machine actions comps ligs) st ng (drive_fuel (drive_start false b) ops) state c (drive_start false b) ops amb gate lr <> None.
 Proof. exact lig_drive_total. Qed.
 Print Assumptions C17_drive_total_ligature.
 
-Theorem C17_drive_total_insertion : forall glyphs st ng b ops state c amb,
-  drive_loop (ins_machine glyphs) st ng (drive_fuel (drive_start false b) ops) state c (drive_start false b) ops amb <> None.
+Theorem C17_drive_total_insertion : forall glyphs st ng b ops state c amb gate lr,
+  drive_loop (ins_machine glyphs) st ng (drive_fuel (drive_start false b) ops) state c (drive_start false b) ops amb gate lr <> None.
 Proof. exact ins_drive_total. Qed.
 Print Assumptions C17_drive_total_insertion.
 
@@ -263,6 +263,88 @@ Print Assumptions C17_ligature_cluster_min.
    action is the first with STORE/LAST, lig_loop visits p_n, p_{n-1}, .. p_{n-k+1}, replaces the glyph
    at p_{n-k+1} by ligs[sum of components], the others by 0xFFFF, and leaves match_length = n-k+1. *)
 
+(* ------------------------------------------------------------------ 7. chain flags with a `feat` table and user features *)
+
+Local Open Scope N_scope.
+
+(* the feature-type / selector constants of the deprecated small-caps fallback are the source's *)
+Theorem C17_feature_constants :
+  aat_type_letter_case = 3 /\ aat_selector_small_caps = 3 /\ aat_type_lower_case = 37 /\
+  aat_selector_lower_case_small_caps = 1 /\ aat_type_character_alternatives = 17 /\
+  mapping_find aat_feature_mappings 1936548720 (* 'smcp' *) = Some (37, 1, 0) /\
+  mapping_find aat_feature_mappings 1818847073 (* 'liga' *) = Some (1, 2, 3).
+Proof. repeat split; exact eq_refl. Qed.
+Print Assumptions C17_feature_constants.
+
+(* one chain feature entry: `flags = (flags & disable) | enable` exactly when its (type, setting) is
+   requested (or it is the deprecated letter-case small-caps entry and lower-case small caps is) *)
+Theorem C17_flag_entry : forall hf flags f,
+  flag_step hf flags f =
+  if hf (mf_type f) (mf_setting f) || ((mf_type f =? 3) && (mf_setting f =? 3) && hf 37 1)
+  then N.lor (N.land flags (mf_disable f)) (mf_enable f) else flags.
+Proof. exact flag_step_spec. Qed.
+Print Assumptions C17_flag_entry.
+
+(* several entries act in TABLE order: the flags of a chain with entries fs1 ++ fs2 are the fold of
+   fs2's updates over the flags after fs1 (overlapping masks: later entries win) *)
+Theorem C17_flag_entries_in_table_order : forall hf d fs1 fs2 subs,
+  chain_flags hf (mkMorxChain d (fs1 ++ fs2) subs) =
+  fold_left (flag_step hf) fs2 (chain_flags hf (mkMorxChain d fs1 subs)).
+Proof. exact chain_flags_app. Qed.
+Print Assumptions C17_flag_entries_in_table_order.
+
+Theorem C17_flag_single_entry : forall hf d f subs,
+  chain_flags hf (mkMorxChain d [f] subs) =
+  if entry_active hf f then N.lor (N.land d (mf_disable f)) (mf_enable f) else d.
+Proof. exact chain_flags_single. Qed.
+Print Assumptions C17_flag_single_entry.
+
+(* no entry requested: the default flags *)
+Theorem C17_flags_no_active_entry : forall hf c,
+  (forall f, In f (mc_features c) -> entry_active hf f = false) -> chain_flags hf c = mc_default_flags c.
+Proof. exact chain_flags_inactive. Qed.
+Print Assumptions C17_flags_no_active_entry.
+
+(* a font without `feat`: whatever the user features, one range with no active feature, and every
+   chain runs with its default flags (the domain of theorems 6) *)
+Theorem C17_no_feat_table : forall fs ng d c p,
+  user_ranges None fs = Ok [([], 0, U32MAX)] /\
+  run_chain ng d [([], 0, U32MAX)] c p = run_subtables ng d (mc_default_flags c) (mc_subtables c) p.
+Proof. exact (fun fs ng d c p => conj (user_ranges_nofeat fs) (run_chain_nofeat ng d c p)). Qed.
+Print Assumptions C17_no_feat_table.
+
+(* a user feature that the font's `feat` table does not expose, or that has no AAT mapping, changes
+   nothing: the compiled ranges are those of the request without it *)
+Theorem C17_feature_absent_from_feat : forall t f ty en dis, uf_tag f <> TAG_AALT ->
+  mapping_find aat_feature_mappings (uf_tag f) = Some (ty, en, dis) ->
+  feat_exposed t ty = None ->
+  ((ty =? aat_type_lower_case) && (en =? aat_selector_lower_case_small_caps) = false \/
+   feat_exposed t aat_type_letter_case = None) ->
+  add_feature (Some t) f = Ok [].
+Proof. exact add_feature_unexposed. Qed.
+Print Assumptions C17_feature_absent_from_feat.
+
+Theorem C17_feature_without_mapping : forall t f, uf_tag f <> TAG_AALT ->
+  mapping_find aat_feature_mappings (uf_tag f) = None -> add_feature (Some t) f = Ok [].
+Proof. exact add_feature_unmapped. Qed.
+Print Assumptions C17_feature_without_mapping.
+
+Theorem C17_feature_dropped : forall feat fs1 f fs2, add_feature feat f = Ok [] ->
+  user_ranges feat (fs1 ++ f :: fs2) = user_ranges feat (fs1 ++ fs2).
+Proof. exact user_ranges_skip. Qed.
+Print Assumptions C17_feature_dropped.
+
+(* ranges: a global feature gives one range where it is active; a feature restricted to clusters
+   [a, b) gives three ranges and is active in the middle one only *)
+Theorem C17_ranges_global : forall i, compile_ranges [mkFR i 0 U32MAX] = [([i], 0, U32MAX)].
+Proof. exact compile_ranges_global. Qed.
+Print Assumptions C17_ranges_global.
+
+Theorem C17_ranges_restricted : forall i a b, 0 < a -> a < b -> b < U32MAX ->
+  compile_ranges [mkFR i a b] = [([], 0, a - 1); ([i], a, b - 1); ([], b, U32MAX)].
+Proof. exact compile_ranges_ranged. Qed.
+Print Assumptions C17_ranges_restricted.
+
 (* ------------------------------------------------------------------ non-vacuity: the hand-derived results of fontgen's selftest *)
 
 Local Open Scope N_scope.
@@ -321,4 +403,31 @@ Proof. vm_compute. reflexivity. Qed.
 (* the hypotheses of C17_rearrange are satisfiable with a non-trivial middle *)
 Example C17_ex_verb13 :
   map gid (rearrange_verb 13 (map (fun g => mkInfo g 0 0 0 0) [1; 2; 10; 11; 12; 3; 4])) = [3; 4; 10; 11; 12; 2; 1].
+Proof. vm_compute. reflexivity. Qed.
+
+(* user features on a font with `feat` (hand-derived in selftest t_morx_feat): chain default flags 1,
+   entries ligatures-on enables 1, ligatures-off clears 1, lower-case small caps enables 2; subtable A
+   (flags 1) maps 1 -> 5, subtable B (flags 2) maps 2 -> 6 *)
+Definition ex_feat_font : font :=
+  ex_font (mkMorx 2 [mkMorxChain 1
+     [mkMorxFeat 1 2 1 0xFFFFFFFF; mkMorxFeat 1 3 0 0xFFFFFFFE; mkMorxFeat 37 1 2 0xFFFFFFFF; mkMorxFeat 3 3 2 0xFFFFFFFF]
+     [mkMorxSub 0 1 (MNonContextual (mkAatLookup 6 [(1, 5)] None)); mkMorxSub 0 2 (MNonContextual (mkAatLookup 6 [(2, 6)] None))]]).
+Definition ex_feat : option feat_table := Some [(1, [2; 3], false); (37, [0; 1], true)].
+Definition uf (tag v a b : N) : ufeature := mkUF tag v a b.
+
+Example C17_ex_feat_liga_off_smcp_on :
+  ex_out (shape_morx_feat ex_feat_font ex_feat [uf 1936548720 1 0 U32MAX; uf 1818847073 0 0 U32MAX] LTR 0 (ex_text [1; 2]))
+  = [(1, 0); (6, 1)].
+Proof. vm_compute. reflexivity. Qed.
+
+(* smcp[1:2]: only the glyph of cluster 1 meets subtable B (range flags, per glyph) *)
+Example C17_ex_feat_ranged :
+  ex_out (shape_morx_feat ex_feat_font ex_feat [uf 1936548720 1 1 2] LTR 0 (ex_text [2; 2; 2]))
+  = [(2, 0); (6, 1); (2, 2)].
+Proof. vm_compute. reflexivity. Qed.
+
+(* the same request on the font without `feat`: ignored *)
+Example C17_ex_nofeat_ignored :
+  ex_out (shape_morx_feat ex_feat_font None [uf 1936548720 1 0 U32MAX; uf 1818847073 0 0 U32MAX] LTR 0 (ex_text [1; 2]))
+  = [(5, 0); (2, 1)].
 Proof. vm_compute. reflexivity. Qed.
